@@ -306,6 +306,10 @@ class Moment:
                 or resolved_op is not op
                 and (
                     resolved_op != op
+                    or (
+                        protocols.is_parameterized(op)
+                        and not protocols.is_parameterized(resolved_op)
+                    )
                     # Equal values can still differ in the symbols they hold (e.g. gates whose
                     # equality ignores an angle that has no effect at the current parameters).
                     or protocols.parameter_names(op) != protocols.parameter_names(resolved_op)
